@@ -33,8 +33,8 @@ MANIFEST = dict(
          'view::reduce/accumulate with an order-revealing functor and of the named routines against NumPy on every check.',
     note='Lean kernel + propext/Classical.choice/Quot.sound; model hand-written, fidelity rests on the correspondence run; slicing by in-range '
          '(start,stop) pairs is taken as C05 proves it, the broadcast inside var as C06 proves it; float arithmetic of mean/var/stddev/vector_norm '
-         'is compared with NumPy under a tolerance; trace has no Lean statement; two genuine defects listed as known findings '
-         '(accumulate with a negative axis, trace with a negative offset); fixed-shape and clipped container kinds are in C09.',
+         'is compared with NumPy under a tolerance; trace has no Lean statement; one genuine defect listed as known finding '
+         '(trace with a negative offset, in index::diagonal); fixed-shape and clipped container kinds are in C09.',
     technique='Lean 4 induction proofs over List Nat shapes + differential correspondence (exhaustive small scope) + NumPy oracle')
 ASSUMPTIONS = ['apply_slice with in-range pairs 0 <= start < stop <= extent has shape stop-start and reads start+d (C05 domain theorem; observed here through every element of every reduction)',
                'uint32 arithmetic of the order-revealing functor is modelled as Nat mod 2^32',
@@ -125,15 +125,6 @@ def _kv(req):
     return dict(t.split('=', 1) for t in req.split()[1:])
 
 
-def pred_accumulate_negative_axis(case):
-    """accumulate / cumsum / cumprod called with a negative axis"""
-    w = case.req.split()
-    if w[0] not in ('accumulate',):
-        return False
-    kv = _kv(case.req)
-    return kv.get('axis', '0').startswith('-')
-
-
 def pred_trace_negative_offset(case):
     """trace with a negative diagonal offset"""
     if case.req.split()[0] != 'trace':
@@ -141,8 +132,7 @@ def pred_trace_negative_offset(case):
     return _kv(case.req).get('offset', '0').startswith('-')
 
 
-KNOWN_PREDICATES = {'accumulate_negative_axis': pred_accumulate_negative_axis,
-                    'trace_negative_offset': pred_trace_negative_offset}
+KNOWN_PREDICATES = {'trace_negative_offset': pred_trace_negative_offset}
 
 
 # ------------------------------------------------------------------------------------------------
@@ -219,8 +209,8 @@ def gen(tier, rng):
             oshape, ores = ref_accumulate(f31, data, s, ax)
             yield Case('accumulate op=f31 shape=%s axis=%d' % (fmt(s), ax), 'h_c08', oracle=ans(oshape, ores), nontrivial=s[ax] > 1,
                        tags=['accumulate', srank, 'axis=pos'])
-            # negative axis: NumPy normalises it; the code does not (known finding accumulate.negative-axis) -> off-domain
-            yield Case('accumulate op=f31 shape=%s axis=%d' % (fmt(s), ax - nd), 'h_c08', dom=False, oracle=ans(oshape, ores),
+            # negative axis = counted from the last axis
+            yield Case('accumulate op=f31 shape=%s axis=%d' % (fmt(s), ax - nd), 'h_c08', oracle=ans(oshape, ores),
                        nontrivial=s[ax] > 1, tags=['accumulate', srank, 'axis=neg'])
 
 
@@ -326,9 +316,9 @@ def gen_ufuncs(tier, rng):
                             yield Case('accumulate op=%s api=%s dtype=%s shape=%s axis=%d data=%s' % (op, api, dt, fmt(s), ax, fmt(data)), 'h_c08r',
                                        oracle=ans(oshape, ores), nontrivial=s[ax] > 1,
                                        tags=['named-' + ('cumsum' if op == 'add' else 'cumprod'), 'api=' + api, 'dtype=' + dt, srank])
-                    # negative axis through cumsum / cumprod: known finding accumulate.negative-axis
-                    yield Case('accumulate op=%s api=view dtype=None shape=%s axis=%d data=%s' % (op, fmt(s), ax - nd, fmt(data)), 'h_c08r',
-                               dom=False, oracle=ans(oshape, ores), nontrivial=s[ax] > 1,
+                    # negative axis through cumsum / cumprod
+                    yield Case('accumulate op=%s api=%s dtype=None shape=%s axis=%d data=%s' % (op, rng.choice(['view', 'array']), fmt(s), ax - nd, fmt(data)), 'h_c08r',
+                               oracle=ans(oshape, ores), nontrivial=s[ax] > 1,
                                tags=['named-' + ('cumsum' if op == 'add' else 'cumprod'), 'axis=neg', srank])
 
 
@@ -448,7 +438,7 @@ def gen_random_large(tier, rng):
                    oracle=ans(oshape, ores), nontrivial=any(s[k] > 1 for k in sub), tags=['reduce', 'random-large', 'rank=%d' % nd])
         ax = rng.randrange(nd)
         oshape, ores = ref_accumulate(f31, data, s, ax)
-        yield Case('accumulate op=f31 shape=%s axis=%d' % (fmt(s), ax), 'h_c08', oracle=ans(oshape, ores), nontrivial=s[ax] > 1,
+        yield Case('accumulate op=f31 shape=%s axis=%d' % (fmt(s), ax - nd if rng.random() < 0.5 else ax), 'h_c08', oracle=ans(oshape, ores), nontrivial=s[ax] > 1,
                    tags=['accumulate', 'random-large', 'rank=%d' % nd])
         if t % 10 == 0:
             oshape, ores = ref_reduce(f31, data, s, None, bool(keep), init)
@@ -461,7 +451,6 @@ _gen_f31 = gen
 
 def gen_witnesses():
     """the witnesses of known/C08.json, re-executed on every run"""
-    yield Case('accumulate op=f31 shape=2 axis=-1', 'h_c08', dom=False, oracle='ok shape=2 data=1,33', tags=['witness'])
     yield Case('trace api=view et=i32 shape=2,3 offset=-1 axis1=0 axis2=1 data=1,2,3,4,5,6', 'h_c08f3', model=False, dom=False,
                oracle='ok shape=[] data=4.0', cmp=close_cmp(1e-12, 1e-12), tags=['witness'])
 
